@@ -33,7 +33,7 @@ Definition bstep (s : bstate) (e : pev) : option bstate :=
   match e, s with
   | PGet, BFresh => Some BHeld
   | PGet, BReleased => Some BHeld          (* a new borrow *)
-  | PGet, BHeld => Some BHeld              (* the held buffer is dropped (a leak, left to the garbage collector): harmless *)
+  | PGet, BHeld => Some BHeld   (* the held buffer is dropped (a leak, left to the garbage collector): harmless *)
   | PPut, BHeld => Some BReleased
   | PPut, _ => None                        (* put without holding / double put *)
   | PUse, BHeld => Some BHeld
@@ -100,13 +100,15 @@ Fixpoint pcheck (fuel : nat) (body : list pstm) (st : pset) : pouts :=
     end
   end.
 
-(* a borrower function: starts without the buffer; leaking it is allowed (the
-   garbage collector takes it), using it after Put or putting it twice is not;
-   no break/continue escapes a loop *)
+(* a borrower function: starts without the buffer; leaking it (leaving the
+   function, or getting another one, while still holding it) is allowed, using
+   it after Put / putting it twice is not; no break/continue escapes a loop *)
 Definition borrower_ok (body : list pstm) : bool :=
   let o := pcheck 200 body (psingle BFresh) in
   o_ok o && negb (pnonempty (o_brk o)) && negb (pnonempty (o_cont o)).
 
+(* at every return and at the end of the body the buffer is not held any more
+   (no leak out of the function) *)
 Definition no_leak (body : list pstm) : bool :=
   let o := pcheck 200 body (psingle BFresh) in
   negb (may_held (o_norm o)) && negb (may_held (o_ret o)).
